@@ -51,6 +51,21 @@ CHECKS = {
     'C15': dict(engine=E1, technique='symbolic execution (CrossHair/z3) of topological_sort + evaluate_model on real model nodes with a symbolic acyclic reference relation and symbolic document order inside each isar kind group',
                 text='Bounded symbolic model checking: output is a permutation of the input, every definition after everything it refers to (constants, enumerators, types, array-size constants), layouts identical to the dependency-ordered run; for every relation and order within the bound.',
                 note='Trusted: CrossHair+patches, z3; input-order model (isar collects constants, typedefs, enums, structs, unions, messages) checked against the real IsarParser each run. Bounds: 3-4 definitions (5 sampled in thorough).', ref='DESIGN 4 C15'),
+    'C08': dict(engine=E2, technique='symbolic execution (llsym/z3) of accessors compiled from the generated raw header <schema>.pp.hpp, overlaid on fully symbolic bytes, plus its sizeof/alignof/offsetof constant functions, against the reference wire offsets',
+                text='Bounded symbolic model checking: for every struct/union type of F (helper types included) and every named member of the main struct and of each partN: offsetof == wire offset, sizeof == wire size (fixed types, unions); reading a scalar member yields exactly the bytes at its wire offset for ALL buffer contents, writing it changes exactly those bytes for ALL values.',
+                note='Trusted: clang-14 -O1 lowering of the packed/aligned structs, llsym, z3, reference offsets (vf/rawharness.py over wirespec). g++ re-evaluates the same constants/accessors in the replay. ABI: x86-64 GNU.', ref='DESIGN 4 C08'),
+    'C09': dict(engine=E2, technique='symbolic execution (llsym/z3) of the IR of the generated prophy::swap<X> on the big-endian reference encoding with symbolic scalar leaves, embedded between symbolic guard bytes',
+                text='Bounded symbolic model checking: after swap the message bytes equal the native reference encoding for ALL scalar values, no guard byte changed, returned pointer == aligned end (greedy tail: address of the unlimited member, members before it native); lengths {0,1,2}, presence/arm per query.',
+                note='Trusted: clang-14 -O1, llsym, z3, wirespec. Native replay under ASan. One open known finding (part cast over-alignment, pinned by a repository test).', ref='DESIGN 4 C09'),
+    'C12': dict(engine=E1, technique='symbolic execution (CrossHair/z3) of the front-end validation functions (Parser._validate_struct_members, p_union_member/p_union_def, p_enum_member, model constructors) on members described by symbolic small integers, and of the runtime class creation from the real generated Python text',
+                text='Shape-symbolic bounded model checking below the grammar: front-end accepts => the generated Python class can be created; front-end accepts => every documented composability rule holds (so rule breakers are rejected); over all type/form/sizer/duplicate/magnitude combinations within the bound.',
+                note='Trusted: CrossHair+patches, z3, the rule predicate legal_member() written from docs/schema.rst. C++ compilability is observed as build errors of the E2 checks (not solver-decided). Rules enforced purely by the grammar are outside.', ref='DESIGN 4 C12'),
+    'C16': dict(engine=E1, technique='symbolic execution (CrossHair/z3) of evaluate_model on Include nodes with symbolic placement of declarations and symbolic constant values, and of FileProcessor / p_include_def over a stub file system with symbolic directory contents and include matrix',
+                text='Bounded symbolic model checking at model level: layouts, constants and numeric array sizes equal those of the single flat file for every placement; the leaf is read from the first existing directory in the documented order and the directory stack is restored; each file processed once; missing / cyclic includes reported.',
+                note='Trusted: CrossHair+patches, z3, in-memory file system stub. Generated-text equivalence is covered through layout equality only; real directories/cwd outside.', ref='DESIGN 4 C16'),
+    'C17': dict(engine=E1, technique='symbolic execution (CrossHair/z3) of isar.make_struct / make_enum on ElementTree elements, patch.patch with every action, and the prophy-text parser actions, with symbolic array-size constants',
+                text='Bounded symbolic model checking at model level: isar (+ each documented patch rule) and the independently written members / prophy text evaluate to identical (size, alignment, kind, per-member padding, numeric size) for all N; absent patch target leaves the model unchanged; inapplicable rules raise; every <dimension> form maps to the documented member form.',
+                note='Trusted: CrossHair+patches, z3, the expected members per rule in vf/frontharness.py. XML text (expat) and patch-file text are outside; negative enumerators on concrete values only.', ref='DESIGN 4 C17'),
 }
 
 PENDING = {}
